@@ -90,6 +90,10 @@ fn gen_many_args(rng: &mut Rng) -> XargsScenario {
     if rng.chance(1, 3) {
         opts.push(Opt::X);
     }
+    // an explicit, generous -s: without one, how much an implementation puts on one command
+    // line is its own business (the statement's max-chars is the user's), and 65536 arguments
+    // need several hundred KiB
+    opts.push(Opt::S(1_000_000));
     XargsScenario {
         opts,
         cmd: vec!["CMD".into()],
